@@ -16,7 +16,15 @@
     - crossed factors have stride 1 ([Block.__validate] rejects stride > 1 in a crossing);
     - [sustains_consistent]: crossings that share a factor have the same sustain count.
 
-    What is *not* implied without the last three conditions: see the [_refuted] examples at the end. *)
+    Also proved of a created record: its [preamble_sizes] and trial count are the documented numbers
+    ([created_fields]), it has at least one trial ([created_trials_pos]), and the geometry its constraints are
+    initialised with satisfies the hypotheses of the C26 theorems ([created_geometry], [ranges_of_created]).
+
+    What is *not* implied without the conditions (concrete inputs, replayed on the real constructors): the
+    [_refuted] examples at the end - a factor shared by crossings of different sustain counts
+    (Merge of a Nest with a block crossing one of the Nest's outer factors: accepted by the real code), a
+    crossing all of whose combinations are excluded (accepted in REPEAT mode, with the error flag), a crossed
+    factor of stride 2 (rejected by the real [Block.__validate], which [create_flat] does not model). *)
 From Coq Require Import ZArith List Bool Arith Lia.
 From SP Require Import Design.Flat Design.Layout Design.LayoutWf Design.LayoutProofs Design.RangesProofs.
 From SP Require Import Front.Trials Front.TrialsWf Front.TrialsProofs Front.CreateFlat.
